@@ -31,7 +31,7 @@ Same(o, obs) == ~o.und /\ o.log = obs.log /\ o.thr = obs.thr /\ o.v = obs.v
 
 AbortPoints(ev, n) ==
     {[log |-> r.first.log, second |-> r.second] :
-        r \in {S!RunThen(ev.prog, j, ev.follow, Fuel) : j \in 1..n}}
+        r \in {S!RunThen(ev.prog, j, ev.follow, Fuel, ev.limit) : j \in 1..n}}
 
 Explained(x, pts) ==
     /\ x.delivered /\ x.panicked
@@ -41,7 +41,7 @@ Explained(x, pts) ==
 Check ==
     i = 0 \/
     LET ev == File[i]
-        base == S!RunThen(ev.prog, 0, ev.follow, Fuel)
+        base == S!RunThen(ev.prog, 0, ev.follow, Fuel, ev.limit)
     IN  IF base.first.und \/ base.second.und THEN PrintT("VJSON " \o ToJson([id |-> ev.id, status |-> "und"]))
         ELSE IF ~Same(base.first, ev.full.first) \/ ~Same(base.second, ev.full.second)
              THEN PrintT("VJSON " \o ToJson([id |-> ev.id, status |-> "badfull", want |-> base]))
